@@ -343,7 +343,19 @@ def h7_histories(n=3, timeout=200, part=None, **kw):
                           "history": "every sequence of %d calls (document, whole/page 0/page 1, caching on/off), optionally followed by interleaved page iterators" % n}, timeout, concretize=conc, part=part)
 
 
+def h8_encrypted(timeout=300, part=None, **kw):
+    """really encrypted documents (six schemes) read with caching on and off, twice, alone or before / after another encrypted document is opened or rejected in the same process:
+    always the plain original (C10.H7_docs, run here as well: the call histories and the caching flag are this property's subject)"""
+    from harness import C10
+    r = C10.h7_docs(timeout=timeout, part=part)
+    r["harness"] = "H8_encrypted"
+    return r
+
+
 def replay(harness, inp):
+    if harness == "H8_encrypted":
+        from harness import C10
+        return C10.replay("H7_docs", inp)
     import pdfminer.pdfinterp as pi
     if harness == "H1_encoding":
         from harness import C06
@@ -392,7 +404,7 @@ def replay(harness, inp):
 
 
 def jobs(tier):
-    J = [Job("H0_inventory", "h0_inventory", {}, 60), Job("H2_usecmap", "h2_usecmap", {}, 100), Job("H3_intern", "h3_intern", {}, 150), Job("H4_getfont", "h4_getfont", {}, 200),
+    J = [Job("H8_encrypted:%d" % k, "h8_encrypted", {"part": [k, 4, 4]}, 300, "H8_encrypted") for k in range(4)] + [Job("H0_inventory", "h0_inventory", {}, 60), Job("H2_usecmap", "h2_usecmap", {}, 100), Job("H3_intern", "h3_intern", {}, 150), Job("H4_getfont", "h4_getfont", {}, 200),
          Job("H5_idempotent", "h5_idempotent", {}, 150), Job("H6_mapcache", "h6_mapcache", {}, 100)]
     for k in range(3):
         J.append(Job("H1_encoding:%d" % k, "h1_encoding", {"part": [k, 3, 7]}, 300, "H1_encoding"))
